@@ -193,9 +193,18 @@ pub fn run(case: &Value, em: &mut Emitter) {
                     } else { h.call(c) })).collect::<Vec<_>>()
                 }));
             }
+            // a thread that does not come back (blocked for ever on the view's lock) is a deadlock, not a hang of the harness
+            let (tx, rx) = std::sync::mpsc::channel();
+            let nthreads = hs.len();
+            for h in hs { let tx = tx.clone(); std::thread::spawn(move || { let _ = tx.send(h.join().ok()); }); }
             let mut results = vec![];
-            for h in hs { if let Ok(r) = h.join() { results.extend(r); } }
-            emit_results(case, &calls, results, false, "stress", 0, em);
+            let mut back = 0;
+            let deadline = Instant::now() + Duration::from_secs(20);
+            while back < nthreads {
+                let left = deadline.saturating_duration_since(Instant::now());
+                match rx.recv_timeout(left) { Ok(r) => { back += 1; if let Some(r) = r { results.extend(r); } } Err(_) => break }
+            }
+            emit_results(case, &calls, results, back < nthreads, "stress", 0, em);
         }
         _ => panic!("bad C16 case"),
     }
